@@ -2,7 +2,7 @@
 from core import hx, nats, hexlist, exc_kind, safe_check
 
 PROPS = ('GambitV.Props.C01', 'GambitV.C01')
-TIE = [('GambitV.Tie.Kmers', 'GambitV.Tie.Kmers'), ('GambitV.Tie.PyFindKmers', 'GambitV.Tie.Py'), ('GambitV.Tie.PyPropsC01', 'GambitV.Tie.Py'), ('GambitV.Tie.PyCalcSig', 'GambitV.Tie.Py'), ('GambitV.Tie.PyBindKmers', 'GambitV.Tie.Py'), ('GambitV.Tie.PyAccFacts', 'GambitV.Tie.Py'), ('GambitV.Tie.PyKmerSpecFacts', 'GambitV.Tie.Py')]
+TIE = [('GambitV.Tie.Kmers', 'GambitV.Tie.Kmers'), ('GambitV.Tie.PyFindKmers', 'GambitV.Tie.Py'), ('GambitV.Tie.PyPropsC01', 'GambitV.Tie.Py'), ('GambitV.Tie.PyCalcSig', 'GambitV.Tie.Py'), ('GambitV.Tie.PyBindKmers', 'GambitV.Tie.Py'), ('GambitV.Tie.PyAccFacts', 'GambitV.Tie.Py'), ('GambitV.Tie.PyKmerSpecFacts', 'GambitV.Tie.Py'), ('GambitV.Tie.PySeqBytes', 'GambitV.Tie.Py')]
 RULE = ('cases = (k, prefix, list of sequences, input type, accumulator). Streams: corpus; every length 0..|pre|+k+3 over '
         'dense tiny alphabets; random k in 1..32 (array accumulator only for k<=10/12), prefixes of length 1..6 incl. '
         'A, AA, AT, ATAT, ACGT; alphabets {prefix letters only, ACGT, ACGT+N, mixed case, arbitrary bytes}; matches planted '
@@ -158,6 +158,9 @@ def run(ctx):
 		(32, b'AT', [b'AT' + b'ACGT' * 8 + b'AT', b'at' + b'acgt' * 8]), (32, b'A', [b'T' * 40 + b'A' * 40]),
 		(16, b'GC', [b'GC' + b'T' * 16, b'A' * 16 + b'GC']), (17, b'GC', [b'GC' + b'T' * 17 + b'GC']),
 		(8, b'TA', [b'TA' + b'G' * 8]), (9, b'TA', [b'TA' + b'G' * 9]), (4, b'TA', [b'TA' + b'G' * 4]), (5, b'TA', [b'TA' + b'G' * 5]),
+		# white space around and inside a sequence is just more bytes that are no nucleotides: positions are positions in the input as given,
+		# for text as for bytes
+		(4, b'AT', [b'  ATGACCTTAGG', b'\nATGACC\n', b'\t ATCCCC \r\n', b'AT GACC', b' ']), (3, b'AT', [b'   CCCAT', b'GGGAT   ', b' \n']),
 	]
 	for k, pre, seqs in corpus:
 		for form in forms:
@@ -196,6 +199,9 @@ def run(ctx):
 			lr = rng.random()
 			n = rng.randint(0, len(pre) + k + 3) if lr < 0.25 else (rng.randint(0, 120) if lr < 0.8 else rng.randint(0, ctx.q(600, 4000)))
 			s = bytearray(_rand_seq(rng, n, alph))
+			if rng.random() < 0.12:
+				# framed by white space (a sequence pasted as text)
+				s = bytearray(rng.choice([b' ', b'  ', b'\n', b'\t ', b'\r\n'])) + s + bytearray(rng.choice([b'', b' ', b'\n']))
 			# plant occurrences, including flush with either end, on either strand
 			from gambit.seq import revcomp
 			for _ in range(rng.choice([0, 1, 2, 4])):
